@@ -106,3 +106,8 @@ CASES += [
       "        for ms in range(Nb):\n            Ld[ms, :, :] += numpy.conj(numpy.transpose(Lm[ms,:,:]))",
       "        for ms in range(Nb-1):\n            Ld[ms, :, :] += numpy.conj(numpy.transpose(Lm[ms,:,:]))"),
 ]
+
+CASES += [
+    m("dephasing rates kept as a view of the tensor (the repaired defect)", "C01-C", R + "relaxationtensor.py",
+      "            self.secular_GG = numpy.einsum(\"ijij->ij\", self.data).copy()", "            self.secular_GG = numpy.einsum(\"ijij->ij\", self.data)"),
+]
